@@ -213,7 +213,7 @@ def coq_cases(tag, imports, preamble, terms, shard=300, timeout=int(os.environ.g
         text += 'Definition cases : list bool := [\n' + ';\n'.join(ts) + '\n].\n'
         text += 'Eval vm_compute in (failing cases).\n'
         t1 = time.time()
-        rc, out = coqc_text('K_%s_%d_%d' % (tag, os.getpid(), k), text, timeout)
+        rc, out = coqc_text('K_%s_%d_%d' % (re.sub(r'[^A-Za-z0-9_]', '_', tag), os.getpid(), k), text, timeout)
         SHARD_TIMES.append((round(time.time() - t1, 1), tag, k))
         if rc != 0:
             raise CheckError('case file %s shard %d failed to compile: %s' % (tag, k, out[-1500:]))
